@@ -234,6 +234,29 @@ func genC13(t *rapid.T) C13Case {
 	c.ActivePanics = rapid.IntRange(0, 3).Draw(t, "activepanics") == 1
 	c.SlowInactive = rapid.IntRange(0, 3).Draw(t, "slowinactive") == 2
 	c.CrossClose = rapid.IntRange(0, 3).Draw(t, "crossclose") == 2
+	if rapid.IntRange(0, 19).Draw(t, "reusepattern") == 11 {
+		// an address that is closed and listened on again while the first listener is still on its way in or out:
+		// its start parks in the bind (slow) or its accept loop has not been scheduled yet (hold)
+		first := C13Step{Op: rapid.SampledFrom([]string{"async", "sync"}).Draw(t, "rmode")}
+		if rapid.Bool().Draw(t, "rslow") {
+			first.Slow = true
+		} else {
+			first.Hold = true
+		}
+		c.Steps = []C13Step{first, {Op: "lclose", I: 0}, {Op: "async", I: 1}}
+		tail := []C13Step{{Op: "open"}, {Op: "release"}, {Op: "release", I: 1}, {Op: "inbound", I: 1}, {Op: "shutdown"}, {Op: "lclose", I: 0}}
+		for _, k := range rapid.Permutation([]int{0, 1, 2, 3, 4, 5}).Draw(t, "rorder") {
+			c.Steps = append(c.Steps, tail[k])
+		}
+		hasShutdown := false
+		for _, st := range c.Steps {
+			hasShutdown = hasShutdown || st.Op == "shutdown"
+		}
+		if !hasShutdown {
+			c.Steps = append(c.Steps, C13Step{Op: "shutdown"})
+		}
+		return c
+	}
 	nl := 0
 	n := rapid.IntRange(1, 12).Draw(t, "nsteps")
 	shutdownAt := rapid.IntRange(0, n).Draw(t, "shutdownat")
@@ -418,7 +441,7 @@ func runC13(c C13Case) (out core.Outcome) {
 		case "listen", "async", "sync":
 			url := fmt.Sprintf("mock://host:%d", 1000+len(listeners))
 			// sometimes the address of a listener that was closed explicitly is used again
-			if st.I%2 == 1 {
+			if st.I%4 != 0 {
 				for _, old := range listeners {
 					if old.closedPre && !old.reused {
 						url, old.reused = old.url, true
